@@ -213,7 +213,8 @@ ModV(flds, out, body) == [t |-> "module", flds |-> flds, out |-> out, body |-> b
 
 RECURSIVE EvalE(_, _, _), EvalSeq(_, _, _), EvalFlds(_, _, _), Exec(_, _, _), Call(_, _),
           Inst(_, _), MapL(_, _), MapT(_, _), MapS(_, _), FilterL(_, _), FilterT(_, _),
-          FilterS(_, _), Reduce(_, _, _, _), EvalParts(_, _, _), SelectFld(_, _, _, _), CopyOn(_, _, _, _)
+          FilterS(_, _), Reduce(_, _, _, _), EvalParts(_, _, _), SelectFld(_, _, _, _), CopyOn(_, _, _, _),
+          EvalArm(_, _, _)
 
 EvalSeq(xs, rho, selfs) == [j \in 1..Len(xs) |-> EvalE(xs[j], rho, selfs)]
 EvalFlds(fl, rho, selfs) == [j \in 1..Len(fl) |-> Fld(fl[j].nm, EvalE(fl[j].ex, rho, selfs))]
@@ -356,6 +357,36 @@ CopyOn(base, flds, rho, selfs) ==
                  THEN (LET r == MergeAll(base.fs, own) IN IF IsBadFs(r) THEN Err ELSE TupleV(r))
                  ELSE Inst(base, own)
 
+(* ---- constraints after `::` (vm.rs op_build_constraint / op_check_constraint) ---- *)
+(* At run time only RANGES and ALTERNATIVES are checked: a single example value after  *)
+(* `::` is an ordinary expression whose shape the static checker compares (C06).  The  *)
+(* reference describes the primitive cases: integer ranges (open on either side) and   *)
+(* exact primitive alternatives against a primitive value; float ranges and composite  *)
+(* alternatives are left to Constraint.tla ("unm" here).                               *)
+ConV(arms) == [t |-> "con", arms |-> arms]
+IsCPrim(v) == v.t \in {"int", "float", "str", "bool"}     \* what a run-time check compares
+EvalArm(a, rho, selfs) ==
+  IF a.a = "shape"
+    THEN LET v == EvalE(a.x, rho, selfs)
+         IN IF Bad(v) THEN v ELSE IF IsCPrim(v) THEN [t |-> "arm", a |-> "exact", v |-> v] ELSE Unm
+    ELSE LET lo == IF a.lo = << >> THEN Null ELSE EvalE(a.lo[1], rho, selfs)
+             hi == IF a.hi = << >> THEN Null ELSE EvalE(a.hi[1], rho, selfs)
+         IN IF AnyBad(<< lo, hi >>) THEN Worst(<< lo, hi >>)
+            ELSE IF lo.t = "float" \/ hi.t = "float" THEN Unm
+            ELSE IF lo.t \notin {"int", "null"} \/ hi.t \notin {"int", "null"} \/ (lo.t = "null" /\ hi.t = "null")
+                   THEN Err                                     \* "Range constraint bounds must be numeric"
+            ELSE [t |-> "arm", a |-> "irange", lo |-> IF lo.t = "int" THEN << lo.i >> ELSE << >>,
+                                               hi |-> IF hi.t = "int" THEN << hi.i >> ELSE << >>]
+ArmHolds(v, arm) ==
+  IF arm.a = "irange" THEN v.t = "int" /\ (arm.lo = << >> \/ v.i >= arm.lo[1]) /\ (arm.hi = << >> \/ v.i <= arm.hi[1])
+  ELSE v.t = arm.v.t /\ v = arm.v
+(* does value v pass what was written after `::` (evaluated to c)?  "ok" / "fail" / "unm" *)
+Passes(v, c) ==
+  IF c.t = "con" THEN (IF ~IsCPrim(v) THEN "unm"
+                       ELSE IF \E j \in 1..Len(c.arms) : ArmHolds(v, c.arms[j]) THEN "ok" ELSE "fail")
+  ELSE IF IsCPrim(c) /\ c.t = v.t THEN "ok"        \* an example of the same primitive type: nothing to check
+  ELSE "unm"
+
 EvalE(e, rho, selfs) ==
   CASE e.e = "lit" -> e.v
     [] e.e = "sym" ->
@@ -437,6 +468,9 @@ EvalE(e, rho, selfs) ==
            ELSE LET v == EvalE(e.args[1], rho, selfs)
                 IN IF Bad(v) THEN v
                    ELSE EvalParts(e.parts, Append(rho, Fld(N_item, v)), selfs)   \* `item` shadows, does not leak
+    [] e.e = "con" ->             \* a constraint expression (only after `::`): ranges and exact alternatives
+         LET as == [j \in 1..Len(e.arms) |-> EvalArm(e.arms[j], rho, selfs)]
+         IN IF AnyBad(as) THEN Worst(as) ELSE ConV(as)
     [] e.e = "bin" ->
          CASE e.op = "and" ->      \* short circuit; both sides must be boolean
                 LET l == EvalE(e.l, rho, selfs)
@@ -488,6 +522,10 @@ EvalE(e, rho, selfs) ==
                           [] e.op = "eq" -> Equal(l, r)
                           [] e.op = "ne" -> LET q == Equal(l, r) IN IF Bad(q) THEN q ELSE BoolV(~q.b)
 
+(* `let name :: constraint = value`: the value, then the constraint, are evaluated; *)
+(* the check comes before the binding                                               *)
+ConFails(v, c) == IF IsUnm(c) THEN "unm" ELSE IF Bad(c) THEN "fail" ELSE Passes(v, c)
+
 (* statements: let binds once (collision, reserved word: failure), expression  *)
 (* statements are evaluated and dropped                                         *)
 Exec(stmts, rho, selfs) ==
@@ -497,6 +535,8 @@ Exec(stmts, rho, selfs) ==
        IN IF IsUnm(v) THEN [k |-> "unm"]
           ELSE IF Bad(v) THEN [k |-> "fail", at |-> Len(rho)]
           ELSE IF st.s = "expr" THEN Exec(Tail(stmts), rho, selfs)
+          ELSE IF st.s = "clet" /\ ConFails(v, EvalE(st.con, rho, selfs)) # "ok"
+                 THEN (IF ConFails(v, EvalE(st.con, rho, selfs)) = "unm" THEN [k |-> "unm"] ELSE [k |-> "fail", at |-> Len(rho)])
           ELSE IF st.nm \in Reserved \/ st.nm = N_env \/ Bound(rho, st.nm) THEN [k |-> "fail", at |-> Len(rho)]
           ELSE Exec(Tail(stmts), Append(rho, Fld(st.nm, v)), selfs)
 
